@@ -213,11 +213,16 @@ def parse_sites():
     on, off = b[0].body, b[0].orelse
     # entry branch: [x = flag]? ; flag = self.__parseRaising ; [return x]?
     sets, remembered_at_entry = False, None
+    slot_written_at_entry = False
     stage = 0
     for s in on:
         if (isinstance(s, ast.Assign) and len(s.targets) == 1 and isinstance(s.targets[0], ast.Name)
                 and is_flag(s.value) and stage == 0):
             remembered_at_entry, stage = s.targets[0].id, 1
+        elif (isinstance(s, ast.Assign) and len(s.targets) == 1 and is_attr_chain(s.targets[0], ["self", "__globalRaising"])
+                and is_flag(s.value) and stage == 0):
+            # the value is kept on the parser object: one slot per object, not per running parse
+            slot_written_at_entry, stage = True, 1
         elif (isinstance(s, ast.Assign) and len(s.targets) == 1 and is_flag(s.targets[0])
                 and is_attr_chain(s.value, ["self", "__parseRaising"]) and stage <= 1):
             sets, stage = True, 2
@@ -245,16 +250,23 @@ def parse_sites():
         for t, st in store_targets(fn):
             if is_attr_chain(t, ["self", "__globalRaising"]):
                 attr_sites.append((fname, st))
+    in_frame = restore_from == "param"
     if restore_from == "attr":
-        if len(attr_sites) != 1 or not is_flag(attr_sites[0][1].value):
-            raise Refused("parse.py: self.__globalRaising is not assigned exactly once from the flag")
-        where = attr_sites[0][0]
-        if where == "__init__":
+        # sites that assign the slot: __init__ (from the flag: the pinned tree; or a constant placeholder)
+        # and/or the entry branch of __parseSetting (from the flag)
+        from_flag = [(w, st) for w, st in attr_sites if is_flag(st.value)]
+        consts = [(w, st) for w, st in attr_sites if isinstance(st.value, ast.Constant)]
+        if len(from_flag) + len(consts) != len(attr_sites) or any(w.split(".")[-1] != "__init__" for w, _ in consts):
+            raise Refused("parse.py: self.__globalRaising is assigned from an unrecognised expression")
+        wheres = sorted(w.split(".")[-1] for w, _ in from_flag)
+        if wheres == ["__init__"] and not slot_written_at_entry:
             attr_at_entry = False
-        elif where == "__parseSetting" and remembered_at_entry is None:
-            raise Refused("parse.py: __globalRaising assigned in __parseSetting in an unrecognised way")
+        elif wheres == ["__parseSetting"] and slot_written_at_entry:
+            attr_at_entry = True            # read at entry, but kept on self: not re-entrancy-safe
         else:
-            raise Refused("parse.py: self.__globalRaising assigned in %s" % where)
+            raise Refused("parse.py: self.__globalRaising assigned from the flag in %s" % (wheres,))
+    elif slot_written_at_entry or attr_sites:
+        raise Refused("parse.py: self.__globalRaising is written but the flag is written back from a parameter")
     methods = {}
     for name in ("parseString", "parseStyle"):
         methods[name] = parse_method_bracket(find_func(tree, ["CSSParser", name]))
@@ -290,7 +302,8 @@ def parse_sites():
               and not b[0].value.func.value.keywords)
         if not ok:
             raise Refused("__init__.py:%d: %s is not `return CSSParser().%s(*a, **k)`" % (fn.lineno, name, name))
-    return dict(parse_sets_flag=sets, parse_restores_normal=normal, parse_restores_exc=exc, parse_saves_at_entry=at_entry)
+    return dict(parse_sets_flag=sets, parse_restores_normal=normal, parse_restores_exc=exc, parse_saves_at_entry=at_entry,
+                parse_saved_in_frame=in_frame)
 
 
 def flag_frame(mods):
@@ -582,7 +595,7 @@ def main():
     ser_frame(mods)
     flags.update(serializer_sites(mods))
     settings_frame(mods)
-    order = ["parse_sets_flag", "parse_restores_normal", "parse_restores_exc", "parse_saves_at_entry",
+    order = ["parse_sets_flag", "parse_restores_normal", "parse_restores_exc", "parse_saves_at_entry", "parse_saved_in_frame",
              "pp_clears_pushed", "pp_clears_saved", "comb_restores_normal", "comb_restores_exc",
              "level_restored_exc", "memo_guarded"]
     body = ["(* brackets of the public entry points that write process-global cells, as found in the source:",
